@@ -250,7 +250,8 @@ pub fn specs(tier: &str) -> Vec<ExpSpec> {
         // six or more free clusters: a depth-5 history never exhausts them, so no whole-FAT scan for a full volume
         let mut sets: Vec<(String, Vec<u32>, Vec<(&str, u32)>)> = vec![
             ("low4-last2".into(), vec![3, 4, 5, 6, last - 1, last], vec![("last-1", last - 1), ("last", last), ("last+1", last + 1), ("low", 3)]),
-            ("last4-low2".into(), vec![last - 3, last - 2, last - 1, last, 3, 4], vec![("last-3", last - 3), ("last", last)]),
+            // (with the hint on the last cluster the third allocation would scan the whole FAT up to last-3: small shape only)
+            ("last4-low2".into(), vec![last - 3, last - 2, last - 1, last, 3, 4], if small { vec![("last-3", last - 3), ("last", last)] } else { vec![("last-3", last - 3)] }),
         ];
         if small {
             sets.push(("low4-last2".into(), vec![3, 4, 5, 6, last - 1, last], vec![("unset", 0xFFFF_FFFF)]));
